@@ -26,6 +26,10 @@ func init() {
 	replayers["c13/cancel"] = replayC13
 }
 
+// c13Horizon bounds one execution in scheduling points. Correct code needs < 50; the bound is generous
+// (thousands of Steps after cancellation) so that designs which look at the flag only every n Steps pass.
+const c13Horizon = 20000
+
 type c13Prog struct {
 	name        string
 	code        []uint8
@@ -40,6 +44,10 @@ func c13Progs() []c13Prog {
 		{"IN A,(n); JR", []uint8{0xDB, 0x10, 0x18, 0xFC}, false, 0x0102},
 		{"NOP;NOP;HALT", []uint8{0x00, 0x00, 0x76}, true, 0x0101},
 		{"LD B,4; L: DJNZ L; HALT", []uint8{0x06, 0x04, 0x10, 0xFE, 0x76}, true, 0x0104},
+		// loops made of prefixed instructions only (two opcode fetches per instruction)
+		{"LD IX,0104; JP (IX) loop", []uint8{0xDD, 0x21, 0x04, 0x01, 0xDD, 0xE9}, false, 0x0104},
+		{"LD IX,0104; IN A,(C); JP (IX) loop", []uint8{0xDD, 0x21, 0x04, 0x01, 0xED, 0x78, 0xDD, 0xE9}, false, 0x0106},
+		{"LD R,A in a loop", []uint8{0xED, 0x4F, 0x18, 0xFC}, false, 0x0102},
 	}
 }
 
@@ -50,6 +58,7 @@ type c13Scenario struct {
 	Canceller int    `json:"canceller"`   // 0 absent, 1 cancels before the call, 2 concurrent
 	Deadline  bool   `json:"deadline_context"`
 	Runs      int    `json:"runs,omitempty"` // number of consecutive Run calls by the caller (0 = 1)
+	R0        int    `json:"r0,omitempty"`   // initial refresh register (0 = base vector's, else value+1)
 	Sched     []int  `json:"schedule,omitempty"`
 }
 
@@ -127,6 +136,10 @@ func c13Body(bg *[65536]uint8, sc *c13Scenario, world **c13World) func(s *sched.
 		base := baseVector(0)
 		st := base.S
 		st.PC, st.SP = 0x0100, 0xF000
+		if sc.R0 > 0 {
+			st.R = uint8(sc.R0 - 1)
+			st.A = st.R
+		}
 		toCPU(&st, cpu)
 		switch sc.BP {
 		case 1:
@@ -262,6 +275,10 @@ func c13Judge(bg *[65536]uint8, sc *c13Scenario, x *sched.Scheduler, w *c13World
 	base := baseVector(0)
 	st := base.S
 	st.PC, st.SP = 0x0100, 0xF000
+	if sc.R0 > 0 {
+		st.R = uint8(sc.R0 - 1)
+		st.A = st.R
+	}
 	toCPU(&st, twin)
 	twin.HALT = false
 	steps := 0
@@ -329,6 +346,12 @@ func checkC13(c *Ctx) {
 						continue // never returns and nothing obliges it to
 					}
 					scenarios = append(scenarios, c13Scenario{Prog: pi, Name: progs[pi].name, BP: bp, Canceller: can, Deadline: dl})
+					if !progs[pi].terminating && bp == 0 && !dl && can == 2 {
+						// the same with other starting values of the refresh register (even, odd, about to wrap)
+						for _, r0 := range []int{0x00, 0x01, 0x7E, 0xFF} {
+							scenarios = append(scenarios, c13Scenario{Prog: pi, Name: progs[pi].name, BP: bp, Canceller: can, R0: r0 + 1})
+						}
+					}
 					if progs[pi].terminating && bp == 0 && !dl {
 						scenarios = append(scenarios, c13Scenario{Prog: pi, Name: progs[pi].name + " (Run x2)", BP: bp, Canceller: can, Runs: 2})
 						if !c.Quick() {
@@ -350,7 +373,7 @@ func checkC13(c *Ctx) {
 		if progs[sc.Prog].terminating && !c.Quick() {
 			b = -1 // unbounded for terminating programs
 		}
-		st := sched.Explore(b, 600, 400000, c13Body(bg, sc, &world), func(x *sched.Scheduler) bool {
+		st := sched.Explore(b, c13Horizon, 400000, c13Body(bg, sc, &world), func(x *sched.Scheduler) bool {
 			spawned := rt.Spawned
 			races := append([]string{}, rt.HB.Races...)
 			rt.Uninstall()
@@ -362,7 +385,7 @@ func checkC13(c *Ctx) {
 				// replay determinism: the same schedule must give identical observations
 				first = false
 				var w2 *c13World
-				x2 := sched.Execute(x.Choices(), 600, c13Body(bg, sc, &w2))
+				x2 := sched.Execute(x.Choices(), c13Horizon, c13Body(bg, sc, &w2))
 				rt.Uninstall()
 				if w2.out.sig() != w.out.sig() || len(x2.Steps) != len(x.Steps) {
 					c.Capped(fmt.Sprintf("nondeterminism not owned: schedule %v gave %q then %q", x.Choices(), w.out.sig(), w2.out.sig()))
@@ -379,7 +402,7 @@ func checkC13(c *Ctx) {
 					}
 				}
 				c.Report(fmt.Sprintf("c13/cancel:%s/bp%d/can%d/dl%v", sc.Name, sc.BP, sc.Canceller, sc.Deadline), int64(len(x.Steps)), "", cs,
-					append(append([]string{fmt.Sprintf("program %q, breakpoints mode %d, canceller mode %d, deadline context %v, schedule %v", sc.Name, sc.BP, sc.Canceller, sc.Deadline, x.Choices())}, d...), "context switches: "+strings.Join(trace, "; ")))
+					append(append([]string{fmt.Sprintf("program %q, breakpoints mode %d, canceller mode %d, deadline context %v, schedule (first 80 choices of %d) %v", sc.Name, sc.BP, sc.Canceller, sc.Deadline, len(x.Steps), headInts(x.Choices(), 80))}, d...), "context switches: "+strings.Join(trace, "; ")))
 				return false
 			}
 			return true
@@ -422,8 +445,8 @@ func checkC13(c *Ctx) {
 	c.Set("preemption_bound", bound)
 	c.Set("bound_pruned_alternatives", boundHit)
 	c.Set("threads_spawned_by_run_total", spawnedTotal)
-	c.Rule = fmt.Sprintf("the real Run, rewritten at check time by an AST pass so that its go statement, channel receive, atomic operations, cancel() and captured-variable accesses go through a cooperative scheduler (%d files rewritten, %d go statements, %d receives, %d shared accesses instrumented); %d scenarios = programs {JR -2; LDIR BC=0 loop; IN A,(n) loop; NOP;NOP;HALT; DJNZ loop;HALT} x BreakPoints {nil, non-nil never reached, reached} x canceller {absent, before the call, concurrent} x parent context {std WithCancel -> Canceled, harness context with AfterFunc -> DeadlineExceeded}; threads: caller, the goroutine(s) Run spawns, canceller; scheduling points at every atomic operation, go, receive, cancel() and inside every memory/port callback; ALL schedules with <=%d preemptions (thorough: unbounded for the terminating programs), fair yields at the polling load, horizon 600 points. Per schedule: error in the allowed set (context error iff cancelled before return and equal to the context's error; nil => HALT executed; ErrBreakPoint => PC in BreakPoints), Run returns whenever cancelled or the program stops, final state = Step-driven twin after a whole number of Steps with the same number of reads, every spawned thread finished (leak), no deadlock, no happens-before race on the captured variables (vector clocks: fork, release/acquire on atomics, cancel->receive). First and every violating schedule are executed twice and must reproduce. Non-trivial: every schedule (counted); distinct outcomes reported.", len(rep.Files), rep.GoStmts, rep.Receives, rep.Wrapped, len(scenarios), bound)
-	c.Bound = fmt.Sprintf("preemption bound %d, horizon 600", bound)
+	c.Rule = fmt.Sprintf("the real Run, rewritten at check time by an AST pass so that its go statement, channel receive, atomic operations, cancel() and captured-variable accesses go through a cooperative scheduler (%d files rewritten, %d go statements, %d receives, %d shared accesses instrumented); %d scenarios = programs {JR -2; LDIR BC=0 loop; IN A,(n) loop; NOP;NOP;HALT; DJNZ loop;HALT; JP (IX) loop; IN A,(C);JP (IX) loop; LD R,A loop} (non-terminating ones also from refresh-register values 00,01,7E,FF) x BreakPoints {nil, non-nil never reached, reached} x canceller {absent, before the call, concurrent} x parent context {std WithCancel -> Canceled, harness context with AfterFunc -> DeadlineExceeded}; threads: caller, the goroutine(s) Run spawns, canceller; scheduling points at every atomic operation, go, receive, cancel() and inside every memory/port callback; ALL schedules with <=%d preemptions (thorough: unbounded for the terminating programs), fair yields at the polling load, horizon 20000 points. Per schedule: error in the allowed set (context error iff cancelled before return and equal to the context's error; nil => HALT executed; ErrBreakPoint => PC in BreakPoints), Run returns whenever cancelled or the program stops, final state = Step-driven twin after a whole number of Steps with the same number of reads, every spawned thread finished (leak), no deadlock, no happens-before race on the captured variables (vector clocks: fork, release/acquire on atomics, cancel->receive). First and every violating schedule are executed twice and must reproduce. Non-trivial: every schedule (counted); distinct outcomes reported.", len(rep.Files), rep.GoStmts, rep.Receives, rep.Wrapped, len(scenarios), bound)
+	c.Bound = fmt.Sprintf("preemption bound %d, horizon 20000", bound)
 	c.Sample(c13Scenario{Prog: 0, Name: progs[0].name, BP: 0, Canceller: 2, Sched: []int{0, 0, 1, 0, 0, 1}})
 	c.Sample(c13Scenario{Prog: 3, Name: progs[3].name, BP: 2, Canceller: 1})
 	c.Assume("sequentially consistent interleavings at the instrumented operations; weak-memory effects are outside the model")
@@ -441,9 +464,16 @@ func replayC13(c *Ctx, raw []byte) []string {
 	}
 	bg := obsBackground(c)
 	var w *c13World
-	x := sched.Execute(sc.Sched, 600, c13Body(bg, &sc, &w))
+	x := sched.Execute(sc.Sched, c13Horizon, c13Body(bg, &sc, &w))
 	races := append([]string{}, rt.HB.Races...)
 	spawned := rt.Spawned
 	rt.Uninstall()
 	return c13Judge(bg, &sc, x, w, spawned, races)
+}
+
+func headInts(a []int, n int) []int {
+	if len(a) > n {
+		return a[:n]
+	}
+	return a
 }
